@@ -199,6 +199,8 @@ async def run_schedule(loop, R, case, make_world):
                     if cancel_after is not None:
                         rec["cancel_at"] = loop.time() + cancel_after
                         loop.call_later(cancel_after, task.cancel)
+                elif ev[1] == "bye":
+                    world.goodbye(ev)
                 else:
                     world.advertise(ev)
             loop.call_at(t, fire)
@@ -230,6 +232,7 @@ class MdnsScheduleWorld:
         self.m = MdnsWorld(loop)
         self.pairing = pairing
         self.announced = []
+        self.byes = []
 
     async def start(self):
         cache = CharacteristicCacheMemory()
@@ -258,6 +261,18 @@ class MdnsScheduleWorld:
         self.announced.append((self.loop.time(), id_, hap_type))
         self.m.announce(rec, hap_type)
 
+    def goodbye(self, ev):
+        """The browser reports the service as removed (goodbye packet); a pending resolve of that name is dropped."""
+        _, _, idx, variant = ev[:4]
+        hap_type = HAP_UDP if variant & 64 else HAP
+        self.byes.append((self.loop.time(), IDS[idx % 2], hap_type))
+        name = f"acc{idx % 2}.{hap_type}"
+        for h in list(self.m.browser._handlers):
+            try:
+                h(zeroconf=self.m.inner, service_type=hap_type, name=name, state_change=ServiceStateChange.Removed)
+            except Exception as e:  # noqa: BLE001
+                self.m.callback_errors.append((self.loop.time(), "browser-callback", e))
+
     def processed_valid(self):
         out = {}
         for (t, kind, name) in self.m.processed:
@@ -274,8 +289,12 @@ class MdnsScheduleWorld:
         for (ta, id_, hap_type) in self.announced:
             kind = "ip" if hap_type == HAP else "coap"
             ts = [t for (t, k, name) in self.m.processed if k == kind and IDS[0 if name.startswith("acc0") else 1] == id_ and t >= ta - EPS]
+            first = min(ts) if ts else None
+            # an announcement withdrawn (goodbye) before it was resolved need not be processed
+            if any(i == id_ and h == hap_type and ta - EPS <= tb <= ta + 0.5 + EPS and (first is None or tb <= first + EPS) for tb, i, h in self.byes):
+                continue
             if ts:
-                lags.append(min(ts) - ta)
+                lags.append(first - ta)
             else:
                 lags.append(99.0)
         return max(lags) if lags else None
@@ -407,6 +426,12 @@ def schedules(draw, ctls, adv_lead=0.5):
         else:
             t = draw(TIMES)
         events.append([t, "adv", draw(st.integers(0, 1)), draw(st.integers(0, 127)), draw(st.integers(0, 1))])
+    if "ble" not in ctls and draw(st.integers(0, 2)) == 0:
+        # goodbye packets (an accessory rebooting): close to an announcement, so that some land inside the 0.5 s resolve delay
+        for e in [e for e in events if e[1] == "adv"][:2]:
+            events.append([max(0.0, e[0] + draw(st.sampled_from([-0.25, 0.0, 0.25, 0.25, 0.75]))), "bye", e[2], e[3] & 64])
+            if draw(st.booleans()):
+                events.append([e[0] + draw(st.sampled_from([0.3, 0.6, 1.0, 2.0])), "adv", e[2], e[3], 0])
     return {"events": events, "pairing": draw(st.sampled_from(["none", "none", "cached", "uncached"]))}
 
 
@@ -414,6 +439,10 @@ def enum_schedules(tier):
     for pairing in ("none", "cached", "uncached"):
         for ctl in ("ip", "coap", "agg"):
             hap = 64 if ctl == "coap" else 0
+            for bye_dt in (0.25, 0.75):
+                for again in (0.3, 0.6, 2.0):
+                    yield {"pairing": pairing, "events": [[0.0, "wait", ctl, IDS[0], 10, None], [1.0, "adv", 0, hap, 0], [1.0 + bye_dt, "bye", 0, hap], [1.0 + bye_dt + again, "adv", 0, hap, 0],
+                                                          [6.0, "wait", ctl, IDS[0], 2, None]]}
             yield {"pairing": pairing, "events": [[0.0, "wait", ctl, IDS[0].upper(), 10, None], [0.0, "wait", ctl, IDS[0], 3, None], [0.0, "wait", ctl, IDS[1], 5, None],
                                                   [2.0, "adv", 0, 1 | hap, 0]]}
             for dt in (-0.25, 0.0, 0.25):
@@ -677,7 +706,7 @@ SPEC = Property(
           "every truncation of a valid regular and of an encrypted advertisement, random bytes, byte substitutions, wrong company id / "
           "type byte. Non-trivial: an advertisement while a waiter waits, malformed content, or a loaded pairing."),
     layers=[
-        Layer("mdns-schedules-fixed", run_mdns_schedule, enumerate=enum_schedules, exhaustive=True, space="3 pairing states x 3 controllers x 8 schedules incl. the deadline race in both orders", min_nontrivial=50),
+        Layer("mdns-schedules-fixed", run_mdns_schedule, enumerate=enum_schedules, exhaustive=True, space="3 pairing states x 3 controllers x 14 schedules incl. the deadline race in both orders and goodbye packets inside / outside the resolve delay", min_nontrivial=50),
         Layer("mdns-schedules", run_mdns_schedule, strategy=lambda: schedules(["ip", "coap", "agg"]), n={"quick": 4000, "thorough": 60000}, min_nontrivial=200),
         Layer("ble-schedules-fixed", run_ble_schedule, enumerate=enum_ble_schedules, exhaustive=True, space="3 pairing states x 2 controllers x 8 schedules", min_nontrivial=30),
         Layer("ble-schedules", run_ble_schedule, strategy=lambda: schedules(["ble", "agg-ble"], adv_lead=0.0), n={"quick": 4000, "thorough": 60000}, min_nontrivial=200),
